@@ -64,12 +64,17 @@ SCENARIOS3 = [
     _S('raw-3-cold', 'cold', [], [['q_db_select', 30]], [['q_db_select', 40]], [['q_by_sql', 35]]),
 ]
 
+QUICK_BOUND2 = ('slice-both-stale', 'slice-one-stale', 'getattr-both-stale', 'filter-slice-stale')
+THOROUGH_BOUND3 = ('slice-both-stale', 'getattr-both-stale')
+THOROUGH_BOUND1 = ('collection-cold',)
+
 def bounds(tier, sc):
-    """preemption bound per scenario kind and tier"""
-    n = len(sc['threads'])
-    if tier == 'quick': return 2 if sc['kind'] == 'stale' else 1
+    """preemption bound per scenario and tier"""
+    name, n = sc['name'], len(sc['threads'])
+    if tier == 'quick': return 2 if name in QUICK_BOUND2 else 1
     if n == 3: return 2 if sc['kind'] == 'stale' else 1
-    return 3 if sc['kind'] == 'stale' else 2
+    if name in THOROUGH_BOUND3: return 3
+    return 1 if name in THOROUGH_BOUND1 else 2
 
 def scenario_by_name(name):
     for sc in SCENARIOS + SCENARIOS3:
@@ -175,6 +180,7 @@ class Visitor(object):
                         raise core.HarnessError('C22: violation %s did not reproduce from its choice list' % sig)
                 sub.count('violations_replayed_identically')
     def result(self, exp, t0, c0, **extra):
+        self.sub.count('replayed_prefixes_identical_to_parent_execution', exp.prefix_checks)
         return dict(sub=self.sub.dump(), name=self.sc['name'], executions=exp.executions, edges=exp.edges,
                     by_pre=exp.by_preemptions, outcomes=sorted(self.outcomes), stats=self.stats,
                     wall=time.time() - t0, cpu=time.process_time() - c0, **extra)
@@ -404,9 +410,7 @@ def run(ctx):
     ctx.cov['scheduling_points'] = described
     ctx.cov['distinct_outcomes'] = n_out
     ctx.cov['cpu_s'] = round(agg['cpu'], 1)
-    ctx.cov['bounds'] = ('2 threads: preemption bound %s for stale-translator scenarios, %s for cold-cache races'
-                         % (('2', '1') if ctx.quick else ('3', '2'))) + \
-                        ('' if ctx.quick else '; 3 threads: bound 2 (stale) / 1 (cold)')
+    ctx.cov['bounds'] = dict((name, 'preemption bound %d completed' % p['bound']) for name, p in sorted(per.items()))
     ctx.cov['smoke_pass'] = 'free-running 4 threads x 200 iterations: counted only (smoke_* counters), decides nothing'
     ctx.guard('schedules explored', agg['executions'], 1000)
     ctx.guard('schedules with a thread switch inside a cache function', agg['switch_exec'], 500)
